@@ -41,7 +41,12 @@ RULE = (
     "in half of these cases, written back - text that it did not write itself: lines of its own register types whose "
     "values are in any of the declared notations of their fields, in other alignments, with blank fields; nothing of "
     "that is observed, and the observed round trip must be exactly what the model computes for D under the declared "
-    "lists of notations, without any history."
+    "lists of notations, without any history. "
+    "Characters that end a line elsewhere (one in-memory case in four that has somewhere to put them, choices drawn from "
+    "a generator of their own seeded by the case): in the INTERIOR of some free-text lines and literal values of D "
+    "stand characters that are line boundaries to str.splitlines() or to universal-newline reading but not to a "
+    "register file handed over in memory - a lone CR, VT, FF, FS, GS, RS, NEL, LS, PS; only LF ends an element, so "
+    "the observed round trip must be exactly what the model (whose readline ends at LF alone) computes for that D."
 )
 ASSUMPTIONS = c04.ASSUMPTIONS + [
     "canonical data = values equal to what their own rendering reads back to (decided with the model's renderer/parser, which is itself compared with the code on every case)",
@@ -355,6 +360,7 @@ def features(case, obs):
             f.append("history_data_of_a_type_the_earlier_version_lacks")
     f.append("assembly=" + ("edited" if case.get("assembly") else "appended"))
     f.append("foreign_text=" + ("none" if not case.get("legacy") else "read_and_written_back" if case["legacy"].get("write_back") else "read"))
+    f.append("line_boundary_chars_inside=" + ("yes" if case.get("line_boundary_chars") else "no"))
     if case.get("legacy") and any(fd["k"] == "date" and len(fd["fmts"]) > 1 for rd in case["regs"] for fd in rd["fields"]):
         f.append("foreign_text_with_several_date_notations")
     if case.get("assembly"):
@@ -612,6 +618,42 @@ def add_foreign_text(case):
     return {**case, "regs": regs, "legacy": {"texts": texts, "write_back": xr.random() < 0.5}}
 
 
+# line boundaries of str.splitlines() / of universal-newline reading that are NOT line ends of a text handed over
+# in memory (io.StringIO, newline="\n"); the lone CR comes up in half of the draws
+OTHER_LINE_BOUNDARIES = "\r\r\r\r\r\r\r\r\x0b\x0c\x1c\x1d\x1e\x85\u2028\u2029"
+
+
+def add_line_boundary_chars(case):
+    """the 'characters that end a line elsewhere' dimension (see RULE); in-memory cases only (a path is read with
+    universal newlines, of which the property says nothing); every choice comes from a generator seeded by the
+    case, so the cases without it are the ones generated before the dimension existed"""
+    if case.get("io"):
+        return case
+    xr = random.Random(zlib.crc32(b"line-boundaries:" + json.dumps(case, sort_keys=True).encode()))
+    if xr.random() >= 0.25:
+        return case
+    elems, changed = [], False
+    for e in case["elems"]:
+        if "dflt" in e and "s" in e["dflt"]:
+            line = codec.dec_data(e["dflt"])
+            body = line[:-1] if line.endswith("\n") else line
+            if len(body) >= 2 and xr.random() < 0.6:
+                i = xr.randrange(1, len(body))
+                e = {"dflt": codec.enc_data(body[:i] + xr.choice(OTHER_LINE_BOUNDARIES) + body[i:] + line[len(body):])}
+                changed = True
+        elif "cls" in e:
+            data = list(e["data"])
+            for j, v in enumerate(data):
+                if isinstance(v, dict) and "s" in v and len(v["s"]) >= 3 and xr.random() < 0.5:
+                    # one interior character gives way: the value keeps its length and its first and last character
+                    i = xr.randrange(1, len(v["s"]) - 1)
+                    data[j] = {"s": v["s"][:i] + [ord(xr.choice(OTHER_LINE_BOUNDARIES))] + v["s"][i + 1 :]}
+                    changed = True
+            e = {**e, "data": data}
+        elems.append(e)
+    return {**case, "elems": elems, "line_boundary_chars": True} if changed else case
+
+
 def corpus_cases():
     d = Path(__file__).resolve().parent.parent.parent / "corpus" / PROP
     out = []
@@ -637,7 +679,7 @@ def cases_of(chunk):
     else:
         rng = random.Random(chunk["seed"])
         for _ in range(chunk["n"]):
-            yield add_foreign_text(random_case(rng, chunk["empty"], history=True, assembly=True))
+            yield add_line_boundary_chars(add_foreign_text(random_case(rng, chunk["empty"], history=True, assembly=True)))
 
 
 def shrinks(case):
